@@ -371,13 +371,13 @@ static rc::Gen<FileCase> genFile() {
 // ---------------------------------------------------------------- phase scripts: silent progress, restart with a new window, pause / re-enable
 struct SStep { int op = 0, a = 0, b = 0; };
 struct ScriptCase {
-  int ev_flags = 0, after_every_read = 0, on_timeout = 0, pause_data_k = 0, timeout_ms = 0, buf_size = 64, win_off = 0, win_len = 64;
+  int ev_flags = 0, after_every_read = 0, on_timeout = 0, pause_data_k = 0, timeout_ms = 0, buf_size = 64, win_off = 0, win_len = 64, setup_mode = 0;
   std::vector<SStep> steps;
   Bytes plan;
   std::string ser() const {
     Writer w;
     w.i("ev_flags", ev_flags).i("after_every_read", after_every_read).i("on_timeout", on_timeout).i("pause_data_k", pause_data_k).i("timeout_ms", timeout_ms)
-        .i("buf_size", buf_size).i("win_off", win_off).i("win_len", win_len).i("nsteps", (long long)steps.size());
+        .i("buf_size", buf_size).i("win_off", win_off).i("win_len", win_len).i("setup_mode", setup_mode).i("nsteps", (long long)steps.size());
     for (size_t i = 0; i < steps.size(); i++) w.iv(("s" + std::to_string(i)).c_str(), {steps[i].op, steps[i].a, steps[i].b});
     w.b("plan", plan);
     return w.str();
@@ -386,7 +386,7 @@ struct ScriptCase {
     Reader r(t);
     ScriptCase c;
     c.ev_flags = (int)r.i("ev_flags"); c.after_every_read = (int)r.i("after_every_read"); c.on_timeout = (int)r.i("on_timeout"); c.pause_data_k = (int)r.i("pause_data_k");
-    c.timeout_ms = (int)r.i("timeout_ms"); c.buf_size = (int)r.i("buf_size", 64); c.win_off = (int)r.i("win_off"); c.win_len = (int)r.i("win_len", 64);
+    c.timeout_ms = (int)r.i("timeout_ms"); c.buf_size = (int)r.i("buf_size", 64); c.win_off = (int)r.i("win_off"); c.win_len = (int)r.i("win_len", 64); c.setup_mode = (int)r.i("setup_mode");
     int n = (int)r.i("nsteps");
     for (int i = 0; i < n; i++) { auto v = r.iv(("s" + std::to_string(i)).c_str()); v.resize(3, 0); c.steps.push_back(SStep{(int)v[0], (int)v[1], (int)v[2]}); }
     c.plan = r.b("plan");
@@ -400,7 +400,7 @@ static Verdict run_script(const ScriptCase &c) {
   c16s_scn s;
   memset(&s, 0, sizeof s);
   s.ev_flags = (uint8_t)(c.ev_flags == 2 ? 2 : 0); s.after_every_read = (uint8_t)(c.after_every_read != 0); s.on_timeout = (uint8_t)(c.on_timeout != 0);
-  s.pause_data_k = (uint8_t)std::max(0, std::min(c.pause_data_k, 20)); s.timeout_ms = (uint16_t)c.timeout_ms;
+  s.pause_data_k = (uint8_t)std::max(0, std::min(c.pause_data_k, 20)); s.timeout_ms = (uint16_t)c.timeout_ms; s.setup_mode = (uint8_t)(c.setup_mode != 0);
   s.buf_size = (uint16_t)c.buf_size; s.win_off = (uint16_t)c.win_off; s.win_len = (uint16_t)c.win_len;
   s.nsteps = (uint8_t)std::min<size_t>(c.steps.size(), C16S_MAX_STEPS);
   for (int i = 0; i < s.nsteps; i++) {
@@ -463,6 +463,12 @@ static Verdict run_script(const ScriptCase &c) {
         label("script_reenabled");
         break;
       case 5: destroyed = true; break;
+      case 6:
+        PBT_REQUIRE(r.rc == 0, tag << ": tp_task_restart() after tp_task_stop() returned " << r.rc);
+        if (paused) label("script_restart_while_paused");
+        paused = false;
+        label("script_stop_then_restart");
+        break;
       default: break;
       }
     }
@@ -472,6 +478,9 @@ static Verdict run_script(const ScriptCase &c) {
       continue;  // reported only if it happens in 3 of 3 runs
     }
     PBT_REQUIRE(!o.foreign_thread, "callback on a thread other than the task's");
+    PBT_REQUIRE(!o.bad_udata, "a callback received a user pointer other than the one the task was given" << (c.setup_mode ? " through tp_task_udata_set()" : ""));
+    PBT_REQUIRE(!o.accessor_mismatch, "a tp_task_*_get() accessor did not return what the matching setter stored");
+    if (c.setup_mode) label("script_task_configured_through_accessors");
     PBT_REQUIRE(!o.guards_bad, "bytes outside the buffer were modified");
     PBT_REQUIRE(o.res.live_fds == 0 && o.res.live_allocs == 0 && o.res.double_free == 0, "script left resources behind (descriptors " << o.res.live_fds << ", allocations " << o.res.live_allocs << ")");
     if (o.log_overflow) label("script_log_full");
@@ -489,6 +498,7 @@ static rc::Gen<ScriptCase> genScript() {
     c.timeout_ms = *rc::gen::weightedElement<int>({{2, 0}, {2, 60}, {1, 100}});
     c.on_timeout = *rc::gen::weightedElement<int>({{1, 0}, {2, 1}});
     c.pause_data_k = (c.ev_flags == 2) ? *rc::gen::weightedElement<int>({{3, 0}, {1, 1}, {1, 2}}) : 0;
+    c.setup_mode = *rc::gen::weightedElement<int>({{2, 0}, {1, 1}});
     c.buf_size = *rc::gen::element(32, 64, 200, 512, 2048);
     c.win_off = *rc::gen::weightedElement<int>({{2, 0}, {3, *range<int>(0, c.buf_size - 8)}});
     c.win_len = *rc::gen::weightedElement<int>({{2, c.buf_size - c.win_off}, {3, *range<int>(4, c.buf_size - c.win_off)}});
@@ -496,7 +506,7 @@ static rc::Gen<ScriptCase> genScript() {
     int cur_len = c.win_len;
     for (int i = 0; i < n; i++) {
       SStep st;
-      st.op = *rc::gen::weightedElement<int>({{5, (int)S_WRITE}, {c.timeout_ms ? 3 : 0, (int)S_WAIT_TIMEOUT}, {3, (int)S_RESTART}, {2, (int)S_ENABLE}, {1, (int)S_SLEEP}});
+      st.op = *rc::gen::weightedElement<int>({{5, (int)S_WRITE}, {c.timeout_ms ? 3 : 0, (int)S_WAIT_TIMEOUT}, {3, (int)S_RESTART}, {2, (int)S_ENABLE}, {1, (int)S_SLEEP}, {1, (int)S_STOP_RESTART}});
       if (st.op == S_WRITE) st.a = *rc::gen::weightedElement<int>({{4, *range<int>(1, std::max(1, cur_len - 1))}, {1, cur_len}, {1, *range<int>(1, 2 * c.buf_size)}});  // mostly less than the window: silent progress
       if (st.op == S_RESTART) { st.a = *range<int>(0, c.buf_size - 4); st.b = *range<int>(2, c.buf_size - st.a); cur_len = st.b; }
       if (st.op == S_SLEEP) st.a = *range<int>(1, 10);
